@@ -7,15 +7,17 @@ from harness.props import C01
 ID = 'C05'
 LEAN_TARGETS = ['Props.C05']
 # Tie A: equivalence theorems generated from the current source by translate/py2lean.py (checked on every run)
-TIE_A = ['shirokovN_eq'] + ['hitzer_tail_ok', 'hitzer_num1_eq', 'hitzer_num2_eq', 'hitzer_num3_eq', 'hitzer_num4_eq', 'hitzer_num5_eq'] + ['meth_pick_inv_eq', 'meth_pow_eq', 'kernel_leftmat_eq', 'kernel_lainv_eq']
+TIE_A = ['shirokovN_eq', 'shirokov_loop_eq'] + ['hitzer_tail_ok', 'hitzer_num1_eq', 'hitzer_num2_eq', 'hitzer_num3_eq', 'hitzer_num4_eq', 'hitzer_num5_eq'] + ['meth_pick_inv_eq', 'meth_pow_eq', 'kernel_leftmat_eq', 'kernel_lainv_eq']
 OBLIGATIONS = [
     'C05.left_inv_iff_right_inv', 'C05.all_methods_agree', 'C05.normalInv_correct', 'C05.hitzer_partial', 'C05.shirokov_partial',
     'C05.zero_divisor_not_invertible', 'C05.one_add_e_singular', 'C05.pow_loop', 'C05.neg_pow',
     'C05.hitzer_scalar_n1', 'C05.hitzer_scalar_n2', 'C05.hitzer_scalar_n3', 'C05.hitzer_scalar_n4', 'C05.hitzer_scalar_n5',
     'C05.scalar_of_components', 'C05.closed_form_correct', 'C05.hitzer_correct_n3', 'C05.hitzer_correct_n4', 'C05.hitzer_correct_n5', 'C05.hitzer_singular',
     'C05.leftLaInv_solution_is_inverse', 'C05.leftLaInv_inverse_solves_system',
+    'C05.shirokov_scalar_n1', 'C05.shirokov_scalar_n2', 'C05.shirokov_scalar_n3', 'C05.shirokov_correct_n1', 'C05.shirokov_correct_n2', 'C05.shirokov_correct_n3', 'C05.shirokov_singular_n3',
 ]
-PARTIAL = ['shirokov_partial: that the last U_k of the Shirokov (Faddeev-LeVerrier) recursion is scalar is not proved in Lean; the executable model of the '
+PARTIAL = ['Shirokov (Faddeev-LeVerrier) recursion: that the last U_k is scalar IS proved for dimensions 1, 2, 3 (every signature, every multivector, any field of characteristic 0; the loop is translated from the source: shirokov_loop_eq); '
+           'for dimensions >= 4 only the final step is a theorem (shirokov_partial) and the executable model of the '
            'algorithm is compared with the exact Gauss-Jordan inverse on every generated input. (The closed-form numerators n = 1..5 ARE proved: M*numerator is scalar.)',
            'leftLaInv: proved that the linear system the code builds from the executable table has exactly the inverse as its solution (any storage order); np.linalg.solve/cond themselves are parameters of the model']
 RULE = ("signatures incl. degenerate, n<=5 quick (n<=8 thorough for the linear-algebra path); multivector families: dense small integers, versors "
